@@ -236,7 +236,8 @@ pub proof fn lemma_grew_trans(a: Seq<IndexEntry<IndexTag>>, b: Seq<IndexEntry<In
 impl PackageBuilder {
 '''),
     Block(BUILDER, 'prepare_data', impl='impl PackageBuilder', exclusive=True,
-          start='        let offset = 0;\n', end='        let now = Timestamp::now();',
+          start='        let offset = 0;\n', end='\n        ];\n', keep_end=True,   # the `let mut actual_records = vec![ .. ];` statement
+         
           subs=[TOSTR,
                 ('format!("rpm-rs {}", env!("CARGO_PKG_VERSION"))', 'rpmrs_version_string()', None, 'R12-format!'),
                 ('self.desc.unwrap_or_else(|| self.summary.clone())', 'or_clone(self.desc, &self.summary)', None, 'R12-unwrap_or_else(clone)'),
